@@ -41,7 +41,7 @@ pub struct Alphabets {
     pub u24: Vec<u32>,
     pub i24: Vec<i32>,
     pub f: Vec<f64>,
-    pub strings: Vec<&'static str>,
+    pub strings: Vec<String>,
     pub seq_lens: Vec<usize>,
 }
 
@@ -59,7 +59,7 @@ impl Alphabets {
             u24: vec![0, 1, 2, 0xFFFF, 0x10000, 0xFF_FFFF],
             i24: vec![0, 1, -1, 0x7F_FFFF, -0x80_0000],
             f: vec![0.0, 1.0, -1.0, 0.5],
-            strings: vec!["", "a", "ab"],
+            strings: boundary_strings(),
             seq_lens: vec![0, 1, 2],
         }
     }
@@ -79,7 +79,7 @@ impl Alphabets {
         serde_json::json!({
             "u8": self.u8_, "i8": self.i8_, "u16": self.u16_, "i16": self.i16_,
             "u32": self.u32_, "i32": self.i32_, "u64": self.u64_, "i64": self.i64_,
-            "Uint24": self.u24, "Int24": self.i24, "float": self.f, "string": self.strings,
+            "Uint24": self.u24, "Int24": self.i24, "float": self.f, "string": self.strings.iter().map(|s| if s.len() > 40 { format!("'x' repeated {} times", s.len()) } else { s.clone() }).collect::<Vec<_>>(), "field_alphabets": FIELD_ALPHABETS.iter().map(|(s, f, a)| format!("{s}.{f}: {a:?}")).collect::<Vec<_>>(),
             "seq_len": self.seq_lens, "Tag": TAGS, "TupleIndex": TUPLE_INDEX, "flags word": "0, every constant declared in the schema's flags block, their union, all ones", "option": ["None", "Some"], "enum": "all variants",
             "literal #[count(N)] arrays": format!("exactly N elements; for N > {PIN_ABOVE} only elements 0, 1 and N-1 vary, the rest stay default"),
         })
@@ -105,6 +105,28 @@ pub struct TapeDe<'t> {
 }
 
 pub const MAX_DEPTH: usize = 40;
+
+/// Boundary strings for every owned `String` (name records, language tags, post glyph names,
+/// meta script/lang tags …): empty, ASCII, BMP non-ASCII representable in MacRoman ("é"), BMP not in
+/// MacRoman ("Ж"), a non-BMP character (surrogate pair in UTF-16), BMP/non-BMP mixed, the last BMP
+/// code point, U+FFFD, an embedded NUL, and the 255 / 256 byte lengths of Pascal strings.
+pub fn boundary_strings() -> Vec<String> {
+    let mut v: Vec<String> = ["", "a", "ab", "é", "Ж", "😀", "a😀b", "\u{FFFF}", "\u{FFFD}", "a\0b"]
+        .iter()
+        .map(|s| s.to_string())
+        .collect();
+    v.push("x".repeat(255));
+    v.push("x".repeat(256));
+    v
+}
+
+/// Scalar fields whose interesting values are an enumeration the u16 alphabet does not contain
+/// (hand-written; (struct, field) context comes from serde's `deserialize_struct`).
+/// name: platform 0 Unicode, 1 Macintosh, 3 Windows, 2 = unsupported; encodings 0, 1, 3, 4, 10, 2.
+pub const FIELD_ALPHABETS: &[(&str, &str, &[u16])] = &[
+    ("NameRecord", "platform_id", &[0, 1, 3, 2]),
+    ("NameRecord", "encoding_id", &[0, 1, 10, 4, 3, 2]),
+];
 
 /// TupleIndex alphabet: 0, an index, EMBEDDED_PEAK_TUPLE, INTERMEDIATE_REGION, PRIVATE_POINT_NUMBERS,
 /// peak+intermediate, everything
@@ -193,8 +215,16 @@ impl<'de, 'a, 't> de::Deserializer<'de> for &'a mut TapeDe<'t> {
     scalar!(deserialize_u8, visit_u8, u8_, u8);
     scalar!(deserialize_i8, visit_i8, i8_, i8);
     fn deserialize_u16<V: Visitor<'de>>(self, v: V) -> Result<V::Value, DeErr> {
-        self.cur = None;
+        let cur = self.cur.take();
         let nt = self.newtype.take();
+        if let Some((s, f)) = cur {
+            if let Some((_, _, a)) = FIELD_ALPHABETS.iter().find(|(fs, ff, _)| *fs == s && *ff == f) {
+                if nt.is_none() && self.flag_alpha.is_none() {
+                    let x = self.pick(a);
+                    return v.visit_u16(x);
+                }
+            }
+        }
         if let Some(fa) = self.flag_alpha.take() {
             let x = self.pick(fa);
             return v.visit_u16(x as u16);
@@ -250,7 +280,7 @@ impl<'de, 'a, 't> de::Deserializer<'de> for &'a mut TapeDe<'t> {
     }
     fn deserialize_char<V: Visitor<'de>>(self, v: V) -> Result<V::Value, DeErr> {
         self.cur = None;
-        let c = self.pick(&['a', '\0', '\u{10FFFF}']);
+        let c = self.pick(&['a', '\0', 'é', '\u{FFFF}', '😀', '\u{10FFFF}']);
         v.visit_char(c)
     }
     /// only `Tag` deserializes through `deserialize_str` (owned strings use `deserialize_string`)
@@ -262,8 +292,8 @@ impl<'de, 'a, 't> de::Deserializer<'de> for &'a mut TapeDe<'t> {
     fn deserialize_string<V: Visitor<'de>>(self, v: V) -> Result<V::Value, DeErr> {
         self.cur = None;
         let a = self.alpha;
-        let s = self.pick(&a.strings);
-        v.visit_string(s.to_string())
+        let i = self.choose(a.strings.len() as u32) as usize;
+        v.visit_string(a.strings[i].clone())
     }
     fn deserialize_bytes<V: Visitor<'de>>(self, v: V) -> Result<V::Value, DeErr> {
         self.deserialize_byte_buf(v)
